@@ -10,8 +10,278 @@ numbers):
                        (the exact-request test), source_counters
   sc_io_file_load      load_bwins (window), load_start, load_room (first resize), load_request, load_last (end-of-file test),
                        load_final (last resize), load_next
-coq/C11/IoGen.v proves that the hand-written model (IoModel.v) computes exactly these."""
+coq/C11/IoGen.v proves that the hand-written model (IoModel.v) computes exactly these.
+
+WHOLE-BODY slices (io_<function>): the complete bodies of sc_io_sink_new / _write / _complete / _align / _destroy / _destroy_null,
+sc_io_source_new / _read / _complete / _align / _activate_mirror / _read_mirror / _destroy / _destroy_null, file_return,
+sc_io_file_save and the three parts of sc_io_file_load (statements in front of the loop, the loop body, statements behind the loop),
+translated with class IoT below: every call (sc_array_resize, memcpy, stdio, the sc_io functions among themselves, sc_calloc / sc_free)
+is an EFFECT - the outputs <callee>_called / <callee>_arg<i> say whether and with which arguments it happens on the path taken, its
+result is the parameter <callee>_ret - and the fields of the sink / source / array are locations (inputs = parameters of the same
+name, outputs = their values when the function returns).  coq/C11/IoWhole.v proves the model's functions EQUAL to the reading of
+these outputs (which array operation a call is, what a counter holds afterwards).  The enumerators are the constants io_<name>,
+printed by a C program compiled against the same headers."""
 import os, re
+import json, subprocess
+
+
+# ==============================================================================================================
+# translator add-on of the whole-body slices
+# ==============================================================================================================
+def str_code(s):
+    b = s.encode()
+    return sum(v << (8 * i) for i, v in enumerate(b))
+
+
+ENUMT = ("sc_io_type_t", "sc_io_mode_t", "sc_io_encode_t", "sc_io_error_t")
+
+
+def make_io(c2g, sl):
+    E = c2g.E
+
+    class LazyE(E):
+        """the result of an effect call: the parameter <callee>_ret comes into being only if the value is used"""
+        def __init__(self, thunk):
+            self.thunk, self.kind, self.atomic, self._t = thunk, "Z", True, None
+
+        @property
+        def text(self):
+            if self._t is None:
+                self._t = self.thunk()
+            return self._t
+
+
+    class IoT(sl.SliceT):
+        """SliceT with the documented additions of the whole-body slices of sc_io.c:
+           * EFFECT CALLS INSIDE EXPRESSIONS: `x = f (..) || y`, `if (f (..))`, `return f (..)`, `if ((p = f (..)) == NULL)`,
+             `r = !(s->e = f (..)) || g (..)` are evaluated in C's order: operands left to right, the right operand of `||` / `&&`
+             only if the left one does not decide (the continuation is duplicated into both arms, so a call that is skipped leaves
+             its ghost outputs at 0); an assignment used as an expression stores and yields the stored value;
+           * a value of the enumeration types sc_io_type_t / mode / encode / error is the integer it denotes, an enumerator is the
+             constant io_<name> (emitted with its value, taken from the enum declaration of sc_io.h in the same AST);
+           * `va_arg (ap, T)` is the parameter va_arg<k> (k-th in source order): the next variadic argument, whatever it is;
+           * a string literal is the number whose little-endian bytes are its characters ("wb" = 0x6277);
+           * a function returns through `ret`; outputs on a path that returns early are the values at that point."""
+        ret_void = property(lambda self: False, lambda self, v: None)
+        used_enums = None
+
+        def __init__(self, **kw):
+            super().__init__(**kw)
+            self.subst = {}
+            self.nva = {}
+
+        # ---- expressions
+        def expr(self, n, env):
+            if id(n) in self.subst:
+                return self.subst[id(n)]
+            k = n.get("kind")
+            if k in ("ImplicitCastExpr", "CStyleCastExpr") and n.get("castKind") == "IntegralCast":
+                inner = n["inner"][0]
+                for t_ in (inner.get("type", {}), n.get("type", {})):
+                    q = c2g.strip_quals(t_.get("qualType", ""))
+                    if q in ENUMT or (t_.get("desugaredQualType") or q).startswith("enum "):
+                        return self.expr(inner, env)
+            if k == "StringLiteral":
+                return c2g.lit(str_code(json.loads(n["value"])))
+            if k == "DeclRefExpr" and n.get("referencedDecl", {}).get("kind") == "EnumConstantDecl":
+                if IoT.used_enums is not None:
+                    IoT.used_enums.add(n["referencedDecl"]["name"])
+                return E("io_%s" % n["referencedDecl"]["name"], "Z", True)
+            if k == "VAArgExpr":
+                if id(n) not in self.nva:
+                    self.nva[id(n)] = len(self.nva) + 1
+                return E(self.lookup(env, "va_arg%d" % self.nva[id(n)]), "Z", True)
+            return super().expr(n, env)
+
+        def has_call(self, n):
+            return bool(sl.find_nodes(n, lambda m: m.get("kind") == "CallExpr" and id(m) in self.ghost_of))
+
+        def has_effect(self, n):
+            """an expression that contains an effect call or an assignment"""
+            return self.has_call(n) or bool(sl.find_nodes(n, lambda m: m.get("kind") == "CompoundAssignOperator" or
+                                                          m.get("kind") == "BinaryOperator" and m.get("opcode") == "="))
+
+        def do_call(self, call, env, k):
+            name = sl.callee_name(call)
+            pre = self.ghost_of[id(call)]
+            args = call["inner"][1:]
+
+            def go(i, env_i, vals):
+                if i == len(args):
+                    pairs = []
+                    if self.effect_called:
+                        pairs.append((pre + "_called", E("1", "Z", True)))
+                    for j, a in enumerate(args):
+                        if self.arg_is_ghost(name, j, a):
+                            pairs.append(("%s_arg%d" % (pre, j), vals[j]))
+                    env1 = dict(env_i)
+                    txt = ""
+                    for key, e in pairs:
+                        v = self.fresh(key)
+                        txt += "let %s := %s in\n" % (v, e.z())
+                        env1[key] = v
+                    for o in self.clobbers.get(name, ()):
+                        env1.pop(o, None)
+                    for a in args:
+                        o = self.addr_of_var(a)
+                        if o == "?":
+                            raise c2g.Unsupported("address of a non-variable passed to %s in %s" % (name, self.fname))
+                        if o is not None:
+                            env1.pop(o, None)
+                    return txt + k(LazyE(lambda: self.lookup(env1, pre + "_ret")), env1)
+                a = args[i]
+                if not self.arg_is_ghost(name, i, a):
+                    return go(i + 1, env_i, vals + [None])
+                return self.eff_expr(a, env_i, lambda v, e2: go(i + 1, e2, vals + [v]))
+            return go(0, env, [])
+
+        def eff_expr(self, n, env, k):
+            """translate expression n whose evaluation has effects; k (value, env) -> text is the continuation"""
+            if not self.has_effect(n):
+                self.subst.pop(id(n), None)        # a value kept from another path of the duplicated continuation is stale
+                return k(self.expr(n, env), env)
+            kd = n.get("kind")
+            if kd == "CallExpr" and id(n) in self.ghost_of:
+                return self.do_call(n, env, k)
+            if kd == "BinaryOperator" and n.get("opcode") == "=":
+                key = self.resolve_alias(self.lvalue_key(n["inner"][0]))
+
+                def store(v, e2):
+                    nm = self.fresh(key)
+                    e3 = dict(e2)
+                    e3[key] = nm
+                    return "let %s := %s in\n%s" % (nm, v.z(), k(E(nm, "Z", True), e3))
+                return self.eff_expr(n["inner"][1], env, store)
+            if kd == "CompoundAssignOperator" and not self.has_effect(n["inner"][0]) and not self.has_effect(n["inner"][1]):
+                # `x op= e` used as a value: c2g's statement rule, then the stored value
+                key = self.resolve_alias(self.lvalue_key(n["inner"][0]))
+                return c2g.Translator.stmts(self, [n], env, dict(fin=lambda e2: k(E(e2[key], "Z", True), e2)))
+            if kd == "BinaryOperator" and n.get("opcode") in ("||", "&&") and self.has_effect(n["inner"][1]):
+                isor = n["opcode"] == "||"
+
+                def left(a, e2):
+                    short = k(E("true" if isor else "false", "bool", True), dict(e2))
+                    full = self.eff_expr(n["inner"][1], dict(e2), lambda b, e3: k(E(b.b(), "bool", True), e3))
+                    return "(if %s then\n%s\nelse\n%s)" % (a.b(), short if isor else full, full if isor else short)
+                return self.eff_expr(n["inner"][0], env, left)
+            if kd == "ConditionalOperator" and (self.has_effect(n["inner"][1]) or self.has_effect(n["inner"][2])):
+                raise c2g.Unsupported("effect inside an arm of ?: in %s" % self.fname)
+            children = [c for c in n.get("inner", []) if isinstance(c, dict) and "kind" in c]
+
+            def go(i, env_i):
+                if i == len(children):
+                    v = self.expr(n, env_i)
+                    for c_ in children:
+                        self.subst.pop(id(c_), None)
+                    return k(v, env_i)
+                c = children[i]
+
+                def keep(v, e2):
+                    self.subst[id(c)] = v
+                    return go(i + 1, e2)
+                return self.eff_expr(c, env_i, keep)
+            return go(0, env)
+
+        def assigned(self, s, acc, declared):
+            """also the locations assigned INSIDE expressions (`r = !(s->e = f (..)) || g (..)`): without them the merge of the two
+            arms of an `if` would drop the store"""
+            super().assigned(s, acc, declared)
+
+            def f(n):
+                if n.get("kind") == "CompoundAssignOperator" or n.get("kind") == "BinaryOperator" and n.get("opcode") == "=" or \
+                        n.get("kind") == "UnaryOperator" and n.get("opcode") in ("++", "--"):
+                    try:
+                        key = self.resolve_alias(self.lvalue_key(n["inner"][0]))
+                    except c2g.Unsupported:
+                        return
+                    if key not in declared:
+                        acc.add(key)
+            sl.walk(s, f)
+
+        # ---- statements
+        def stmts(self, ss, env, K):
+            if ss:
+                s, rest = ss[0], list(ss[1:])
+                k = s.get("kind")
+                if not self.is_abort(s):
+                    if k == "IfStmt" and self.has_effect(s["inner"][0]):
+                        A = [s["inner"][1]]
+                        B = [s["inner"][2]] if len(s["inner"]) > 2 else []
+                        return self.eff_expr(s["inner"][0], env, lambda c, e2: "(if %s then\n%s\nelse\n%s)" % (
+                            c.b(), self.stmts(A + rest, dict(e2), K), self.stmts(B + rest, dict(e2), K)))
+                    if k == "ReturnStmt":
+                        inner = [c for c in s.get("inner", []) if isinstance(c, dict)]
+                        if inner and self.has_effect(inner[0]):
+                            if K.get("ret") is None:
+                                raise c2g.Unsupported("return statement inside a slice of %s" % self.fname)
+                            return self.eff_expr(inner[0], env, lambda v, e2: K["ret"](v, e2))
+                    if k == "BinaryOperator" and s.get("opcode") == "=" and self.has_effect(s["inner"][1]):
+                        return self.eff_expr(s, env, lambda v, e2: self.stmts(rest, e2, K))
+                    if k in ("CallExpr", "ParenExpr", "ImplicitCastExpr") and sl.strip(s).get("kind") == "CallExpr" and id(sl.strip(s)) in self.ghost_of:
+                        return self.eff_expr(sl.strip(s), env, lambda v, e2: self.stmts(rest, e2, K))
+                    if k == "DeclStmt" and len(s.get("inner", [])) == 1:
+                        d = s["inner"][0]
+                        init = [c for c in d.get("inner", []) if isinstance(c, dict) and "kind" in c]
+                        if init and self.has_effect(init[0]):
+                            def bind(v, e2):
+                                nm = self.fresh(d["name"])
+                                e3 = dict(e2)
+                                e3[d["name"]] = nm
+                                return "let %s := %s in\n%s" % (nm, v.z(), self.stmts(rest, e3, K))
+                            return self.eff_expr(init[0], env, bind)
+            return super().stmts(ss, env, K)
+
+
+    def emit_io(stmts, gname, outputs, fname, params=(), init=None, ret=None, comment="", want_params=None, loop_body=False, **kw):
+        """sl.emit_block for IoT, without loops; loop_body: the statements are the body of a loop - falling off the end / `continue`
+        deliver `stop` = 0, `break` delivers `stop` = 1, `return e` delivers `stop` = 2 and ret = e (ret = 0 otherwise)."""
+        T = IoT(**kw)
+        T.fname, T.gname = fname, gname
+        T.free_as_params = True
+        T.fun_params = []
+        T.extra = []
+        T.scan(stmts)
+        env = dict((p, p) for p in params)
+        T.params = list(params)
+        for g in T.ghosts:
+            env[g] = "0"
+        for k_, v_ in (init or {}).items():
+            env[k_] = v_
+        outs = []
+        for o in outputs:
+            outs += T.ghosts if o == "*ghosts" else [o]
+        if any(c2g.body_uses_loops(x) for x in stmts):
+            raise c2g.Unsupported("%s: loop inside a whole-body slice" % fname)
+
+        def tup(e2, rv=None):
+            parts = []
+            for o in outs:
+                if o == ret:
+                    if rv is None:
+                        raise c2g.Unsupported("%s: falls off the end without a return value" % fname)
+                    parts.append(rv.z())
+                else:
+                    parts.append(T.lookup(e2, o))
+            return parts[0] if len(parts) == 1 else "(%s)" % ", ".join(parts)
+        K = dict(fin=lambda e2: tup(e2), ret=(lambda e, e2: tup(e2, e)) if ret else None, brk=None, cont=None)
+        if loop_body:
+            zero = E("0", "Z", True)
+            env["stop"] = "0"
+            K["fin"] = K["cont"] = lambda e2: tup(dict(e2, stop="0"), zero)
+            K["brk"] = lambda e2: tup(dict(e2, stop="1"), zero)
+            K["ret"] = lambda e, e2: tup(dict(e2, stop="2"), e)
+        text = T.stmts(list(stmts), env, K)
+        if T.uses_word or T.extra or T.fun_params:
+            raise c2g.Unsupported("%s: memory read inside a whole-body slice" % fname)
+        plist = " ".join("(%s : Z)" % p for p in T.params)
+        if want_params is not None and sorted(T.params) != sorted(want_params):
+            raise c2g.Unsupported("%s: free variables %s, expected %s" % (fname, sorted(T.params), sorted(want_params)))
+        out = ""
+        if comment:
+            out += "(* %s *)\n" % comment.replace("*)", "* )").replace("(*", "( *")
+        out += "Definition %s %s :=\n%s.\n" % (gname, plist, text)
+        return out, dict(name=gname, cname=fname, params=list(T.params), outputs=outs, fuel=False)
+    return IoT, emit_io
 
 
 def register(GROUPS, c2g, incs, REPO, HERE, STRUCTS, Group):
@@ -117,6 +387,111 @@ def register(GROUPS, c2g, incs, REPO, HERE, STRUCTS, Group):
         t, i = sl.emit_block([a2], "load_final", ["bpos"], "sc_io_file_load/final", want_params=["bpos", "bout"])
         g.add(t, i)
         block("sc_io_file_load", r"^\s*bpos \+= bwins;", r"^  \}", "load_next", ["bpos"], ["bpos", "bwins"])
-        return g, [f]
+
+        # ============================================================================================================
+        # whole-body slices (class IoT): every function of the sinks and sources, calls as effects
+        # ============================================================================================================
+        IoT, emit_io = make_io(c2g, sl)
+        IoT.used_enums = set()
+        EFF = ("sc_array_resize", "memcpy", "fwrite", "fflush", "fclose", "fopen", "ferror", "fread", "feof", "fseek",
+               "sc_io_sink_write", "sc_io_sink_complete", "sc_io_sink_destroy", "sc_io_source_read", "sc_io_source_complete",
+               "sc_io_source_destroy", "sc_calloc", "sc_free", "sc_array_new", "sc_array_destroy", "sc_io_sink_new", "sc_io_source_new",
+               "sc_io_sink_destroy_null", "sc_io_source_destroy_null", "file_return")
+        KW = dict(effects=EFF, effect_called=True, drop_calls=("sc_logf", "sc_log", "__builtin_va_start", "__builtin_va_end"),
+                  effect_skip_args={"sc_calloc": (0,), "sc_free": (0,)}, symbolic_calls=("sc_array_index",))
+        Z0 = lambda *fs: dict((x, "0") for x in fs)      # SC_ALLOC_ZERO: every field of the fresh object is 0
+
+        def stmts_of(cfn):
+            return [c for c in fn(cfn)["inner"] if c.get("kind") == "CompoundStmt"][0].get("inner", [])
+        WHOLE = [
+            ("sc_io_sink_new", "io_sink_new",
+             ["ret", "sink_iotype", "sink_mode", "sink_encode", "sink_buffer", "sink_buffer_bytes", "sink_file", "sink_bytes_in", "sink_bytes_out", "*ghosts"],
+             Z0("sink_iotype", "sink_mode", "sink_encode", "sink_buffer", "sink_buffer_bytes", "sink_file", "sink_bytes_in", "sink_bytes_out", "sink_is_eof"),
+             ["iotype", "iomode", "ioencode", "va_arg1", "va_arg2", "va_arg3", "sink_buffer_elem_count", "sink_buffer_elem_size", "sizeof_sc_io_sink_t",
+              "sc_calloc_ret", "fopen_ret", "ferror_ret"]),
+            ("sc_io_sink_write", "io_sink_write", ["ret", "sink_buffer_bytes", "sink_bytes_in", "sink_bytes_out", "*ghosts"], {},
+             ["sink_iotype", "sink_buffer", "sink_buffer_elem_size", "sink_buffer_byte_alloc", "sink_buffer_array", "sink_buffer_bytes", "sink_bytes_in",
+              "sink_bytes_out", "sink_file", "data", "bytes_avail", "fwrite_ret"]),
+            ("sc_io_sink_complete", "io_sink_complete", ["ret", "bytes_in_deref", "bytes_out_deref", "sink_bytes_in", "sink_bytes_out", "*ghosts"], {},
+             ["sink_iotype", "sink_buffer_elem_size", "sink_buffer_bytes", "sink_bytes_in", "sink_bytes_out", "sink_file", "bytes_in", "bytes_out",
+              "bytes_in_deref", "bytes_out_deref", "fflush_ret"]),
+            ("sc_io_sink_align", "io_sink_align", ["ret", "*ghosts"], {}, ["sink", "sink_bytes_out", "bytes_align", "sc_calloc_ret", "sc_io_sink_write_ret"]),
+            ("sc_io_sink_destroy", "io_sink_destroy", ["ret", "*ghosts"], {}, ["sink", "sink_iotype", "sink_file", "sc_io_sink_complete_ret", "fclose_ret"]),
+            ("sc_io_sink_destroy_null", "io_sink_destroy_null", ["ret", "sink_deref", "*ghosts"], {}, ["sink_deref", "sc_io_sink_destroy_ret"]),
+            ("sc_io_source_new", "io_source_new",
+             ["ret", "source_iotype", "source_encode", "source_buffer", "source_buffer_bytes", "source_file", "source_bytes_in", "source_bytes_out",
+              "source_is_eof", "source_mirror", "source_mirror_buffer", "*ghosts"],
+             Z0("source_iotype", "source_encode", "source_buffer", "source_buffer_bytes", "source_file", "source_bytes_in", "source_bytes_out",
+                "source_is_eof", "source_mirror", "source_mirror_buffer"),
+             ["iotype", "ioencode", "va_arg1", "va_arg2", "va_arg3", "sizeof_sc_io_source_t", "sc_calloc_ret", "fopen_ret", "ferror_ret"]),
+            ("sc_io_source_read", "io_source_read",
+             ["ret", "bytes_out_deref", "source_buffer_bytes", "source_bytes_in", "source_bytes_out", "source_is_eof", "*ghosts"], {},
+             ["source_iotype", "source_buffer_elem_count", "source_buffer_elem_size", "source_buffer_array", "source_buffer_bytes", "source_bytes_in",
+              "source_bytes_out", "source_is_eof", "source_file", "source_mirror", "data", "bytes_avail", "bytes_out", "bytes_out_deref",
+              "fread_ret", "feof_ret", "ferror_ret", "sc_io_sink_write_ret", "fseek_ret"]),
+            ("sc_io_source_complete", "io_source_complete", ["ret", "bytes_in_deref", "bytes_out_deref", "source_bytes_in", "source_bytes_out", "*ghosts"], {},
+             ["source_iotype", "source_buffer_elem_size", "source_buffer_bytes", "source_bytes_in", "source_bytes_out", "source_mirror", "bytes_in", "bytes_out",
+              "bytes_in_deref", "bytes_out_deref", "sc_io_sink_complete_ret"]),
+            ("sc_io_source_align", "io_source_align", ["ret", "*ghosts"], {}, ["source", "source_bytes_out", "bytes_align", "sc_io_source_read_ret"]),
+            ("sc_io_source_activate_mirror", "io_source_activate_mirror", ["ret", "source_mirror_buffer", "source_mirror", "*ghosts"], {},
+             ["source_iotype", "source_mirror_buffer", "source_mirror", "sc_array_new_ret", "sc_io_sink_new_ret"]),
+            ("sc_io_source_read_mirror", "io_source_read_mirror", ["ret", "*ghosts"], {},
+             ["source_mirror_buffer", "data", "bytes_avail", "bytes_out", "sc_io_source_new_ret", "sc_io_source_read_ret", "sc_io_source_destroy_ret"]),
+            ("sc_io_source_destroy", "io_source_destroy", ["ret", "*ghosts"], {},
+             ["source", "source_iotype", "source_file", "source_mirror", "source_mirror_buffer", "sc_io_source_complete_ret", "sc_io_sink_destroy_ret", "fclose_ret"]),
+            ("sc_io_source_destroy_null", "io_source_destroy_null", ["ret", "source_deref", "*ghosts"], {}, ["source_deref", "sc_io_source_destroy_ret"]),
+            ("file_return", "io_file_return", ["ret", "*ghosts"], {}, ["retval", "sink", "source", "sc_io_sink_destroy_ret", "sc_io_source_destroy_ret"]),
+            ("sc_io_file_save", "io_file_save", ["ret", "*ghosts"], {},
+             ["filename", "buffer_array", "buffer_elem_count", "sink", "sc_io_sink_new_ret", "sc_io_sink_write_ret", "sc_io_sink_destroy_null_ret",
+              "file_return_ret", "file_return2_ret", "file_return3_ret", "file_return4_ret"]),
+        ]
+        for cfn, gname, outs, init, params in WHOLE:
+            t, i = emit_io(stmts_of(cfn), gname, outs, cfn, params=tuple(params), want_params=params, ret="ret", init=init,
+                           comment="%s, whole body: returns (%s, <effects in source order>)" % (cfn, ", ".join(o for o in outs if o != "*ghosts")), **KW)
+            t = t.replace("<effects in source order>", ", ".join(o for o in i["outputs"] if o not in outs), 1)
+            g.add(t, i)
+        # sc_io_file_load: the statements in front of the loop, the loop body, the statements behind the loop
+        LB = stmts_of("sc_io_file_load")
+        loops = [k for k, s_ in enumerate(LB) if s_.get("kind") == "ForStmt"]
+        if len(loops) != 1:
+            raise c2g.Unsupported("sc_io_file_load: %d for loops" % len(loops))
+        LP = LB[loops[0]]
+        heads = LP["inner"][:-1]
+        # for (i = 0;; ++i): no condition, the counter i is not used by the body
+        if len(LP["inner"]) != 5 or heads[1] or heads[2] or "i" in sl.refs(LP["inner"][-1]):
+            raise c2g.Unsupported("sc_io_file_load: the loop is not `for (i = 0;; ++i)` with a body that ignores i")
+        for part, st, outs, params, kw in (
+                ("open", LB[:loops[0]], ["ret", "stop", "sink", "source", "bpos", "bwins", "*ghosts"], ["filename", "sc_io_source_new_ret", "file_return_ret"], dict(loop_body=True)),
+                ("body", [LP["inner"][-1]], ["ret", "stop", "bpos", "*ghosts"],
+                 ["buffer", "sink", "source", "bpos", "bwins", "bout", "sc_array_index_ret", "sc_io_source_read_ret", "file_return_ret"], dict(loop_body=True)),
+                ("close", LB[loops[0] + 1:], ["ret", "*ghosts"],
+                 ["sink", "source", "sc_io_source_destroy_null_ret", "file_return_ret", "file_return2_ret"], {})):
+            t, i = emit_io(st, "io_file_load_" + part, outs, "sc_io_file_load", params=tuple(params), want_params=params, ret="ret",
+                           comment="sc_io_file_load, %s: returns (%s, <effects in source order>); stop = 0 fell through / next pass, 1 break, 2 returned ret; "
+                                   "`bout` and a pointer variable whose address was handed to a callee hold what the callee left there"
+                                   % ({"open": "statements in front of the loop", "body": "one pass of the loop body", "close": "statements behind the loop"}[part],
+                                      ", ".join(o for o in outs if o != "*ghosts")), **dict(KW, **kw))
+            t = t.replace("<effects in source order>", ", ".join(o for o in i["outputs"] if o not in outs), 1)
+            g.add(t, i)
+        # the enumerators, printed by a program compiled against the same headers
+        names = sorted(IoT.used_enums | {"SC_IO_TYPE_BUFFER", "SC_IO_TYPE_FILENAME", "SC_IO_TYPE_FILEFILE", "SC_IO_MODE_WRITE", "SC_IO_MODE_APPEND",
+                                         "SC_IO_ENCODE_NONE", "SC_IO_ERROR_NONE", "SC_IO_ERROR_FATAL", "SC_IO_ERROR_AGAIN"})
+        prog = "#include <sc.h>\n#include <sc_io.h>\n#include <stdio.h>\nint main (void) {\n"
+        for x in names:
+            prog += '  printf ("Definition io_%s : Z := %%lld.\\n", (long long) (%s));\n' % (x, x)
+        for x in ("rb", "wb", "ab"):
+            prog += '  printf ("Definition io_str_%s : Z := %d.\\n");\n' % (x, str_code(x))
+        prog += '  printf ("Definition io_SEEK_CUR : Z := %lld.\\n", (long long) SEEK_CUR);\n  return 0;\n}\n'
+        cpath = os.path.join(tmp, "io_c11_consts.c")
+        open(cpath, "w").write(prog)
+        exe = os.path.join(tmp, "io_c11_consts")
+        p = subprocess.run(["gcc", "-w"] + ["-I" + i_ for i_ in incs(tmp)] + [cpath, "-o", exe], stdout=subprocess.PIPE, stderr=subprocess.STDOUT)
+        if p.returncode != 0:
+            raise c2g.Unsupported("constants program of IoC11 does not compile: " + p.stdout.decode()[-400:])
+        out = subprocess.run([exe], stdout=subprocess.PIPE).stdout.decode()
+        # constants first: the definitions above refer to them
+        g.text = out + "\n" + g.text
+        g.infos.append(dict(name="consts_IoC11", lines=out.count("\n")))
+        return g, [f, os.path.join(REPO, "src", "sc_io.h")]
 
     GROUPS["IoC11"] = gen_io
